@@ -15,6 +15,8 @@ struct shim_cfg {
     int  fault_class;    /* MPI error class to return */
     long fault_fired;    /* how many injections fired */
     int  fault_sticky;   /* 1: fail every data-transfer call with ordinal >= fault_ord */
+    int  short_write;    /* >0: POSIX write/pwrite calls of more than this many bytes to a burst-buffer log file transfer only half */
+    long short_fired;
     unsigned delay_state;/* PRNG state for schedule perturbation, 0 = off */
     int  delay_max_us;
     int  log_p2p;        /* log point-to-point too */
